@@ -107,13 +107,28 @@ BuildImage(db, c) ==
             THEN LET cand == {j \in 1..Len(u.pool) : u.pool[j].rc >= 2 /\ Ref(j) \in {ts1[N_Columns][r][3] : r \in 1..Len(ts1[N_Columns])}}
                      \* preferably the name of the nullable column V: its _Validation row (found through the OTHER copy of
                      \* the text) carries what the type word does not - a reader must match catalog rows by text
-                     k == IF \E j \in cand : u.pool[j].s = V THEN CHOOSE j \in cand : u.pool[j].s = V ELSE MinOf(cand)
+                     \* (the localizable text column S of table U has a category; failing that, V)
+                     k == IF \E j \in cand : u.pool[j].s = <<83>> THEN CHOOSE j \in cand : u.pool[j].s = <<83>>
+                          ELSE IF \E j \in cand : u.pool[j].s = V THEN CHOOSE j \in cand : u.pool[j].s = V ELSE MinOf(cand)
                      r == MinOf({r \in 1..Len(ts1[N_Columns]) : ts1[N_Columns][r][3] = Ref(k)})
                  IN [pool |-> Append([u.pool EXCEPT ![k].rc = @ - 1], Fresh(u.pool[k].s)),
                      ts |-> [ts1 EXCEPT ![N_Columns][r][3] = Ref(Len(u.pool) + 1)]]
             ELSE [pool |-> u.pool, ts |-> ts1]
-      po == IF c.over /\ Len(pd.pool) > 0 THEN [pd.pool EXCEPT ![Len(pd.pool)].rc = @ + 1] ELSE pd.pool
-  IN [pool |-> po, ts |-> pd.ts]
+      \* ... and the _Validation rows of one table (U if there is one: its columns have categories) name their table
+      \* through a second copy of its name
+      dupT == IF U \in DOMAIN db.tabs THEN U ELSE T
+      pd2 == IF c.dup /\ c.validation /\ dupT \in DOMAIN db.tabs
+             THEN LET kk == {j \in 1..Len(pd.pool) : pd.pool[j].rc > 0 /\ pd.pool[j].s = dupT} IN
+                  IF kk = {} THEN pd ELSE
+                  LET k == MinOf(kk)
+                      R == {r \in 1..Len(pd.ts[N_Validation]) : pd.ts[N_Validation][r][1] = Ref(k)}
+                      n == Len(pd.pool) + 1
+                  IN IF R = {} \/ pd.pool[k].rc <= Cardinality(R) THEN pd ELSE
+                     [pool |-> Append([pd.pool EXCEPT ![k].rc = @ - Cardinality(R)], [s |-> dupT, rc |-> Cardinality(R)]),
+                      ts |-> [pd.ts EXCEPT ![N_Validation] = [r \in 1..Len(@) |-> IF r \in R THEN [@[r] EXCEPT ![1] = Ref(n)] ELSE @[r]]]]
+             ELSE pd
+      po == IF c.over /\ Len(pd2.pool) > 0 THEN [pd2.pool EXCEPT ![Len(pd2.pool)].rc = @ + 1] ELSE pd2.pool
+  IN [pool |-> po, ts |-> pd2.ts]
 
 ImgSummary == [InitSummary EXCEPT !.author = StrV(<<233, 120>>), !.word_count = IntV(2), !.arch = StrV(<<120, 54, 52>>), !.languages = [l |-> <<1033>>],
                                    \* a package code, as every real installer has one
